@@ -179,7 +179,7 @@ static void *client_thread (void *arg) {
 }
 
 #ifdef HC_TOY
-extern int toy_fail_at, toy_calls;      /* toy_prims.c: fail the k-th primitive call of the request */
+extern __thread int toy_fail_at, toy_calls;      /* toy_prims.c: fail the k-th primitive call of the request */
 #endif
 
 /* ownership of the connection's descriptor: the request path must close it exactly once (a second close () hits whatever
